@@ -191,7 +191,7 @@ func (c *Check) ErrPropagated(cs *CallSite, rule, label string) bool {
 	// tail propagation: some return yields this very value as its error
 	for _, b := range fn.Blocks {
 		if r, ok := b.Instrs[len(b.Instrs)-1].(*ssa.Return); ok && len(r.Results) > 0 {
-			last := r.Results[len(r.Results)-1]
+			last := RetVal(r, len(r.Results)-1)
 			if isErrorType(last.Type()) && reachesValue(last, errVal, 0) {
 				// must not be a return under err==nil only; accept direct propagation
 				c.Ok(rule, construct, v.Pos(), "error returned directly (tail propagation)")
